@@ -56,6 +56,16 @@ let rec tree_of cp = function
      "ID B <acct> <sorted amounts>" per account, "ID P <sym> <prec>" per commodity, "ID N <accepted postings>" *)
 let handle line =
   match parse_sexp line with
+  | L (A "range" :: A id :: items) ->
+    (* (range ID (LABELHEX DATE) ...): the postings of a report in the order they arrive, each with the label of its
+       group and its date (yyyymmdd) -> "ID R * s f" for all of them, "ID R LABELHEX s f" per label *)
+    let ps = List.map (function L [l; d] -> (str_of_hex (atom l), zatom d) | _ -> failwith "range item") items in
+    let show lab = function
+      | Some (s, f) -> Printf.sprintf "%s R %s %s %s" id lab (string_of_z s) (string_of_z f)
+      | None -> Printf.sprintf "%s R %s - -" id lab in
+    let labels = List.sort_uniq compare (List.map (fun (l, _) -> string_of_str l) ps) in
+    show "*" (date_range (List.map snd ps)) ::
+    List.map (fun l -> show (hex_of_string l) (group_range (str_of_string l) ps)) labels
   | L (A "files" :: A id :: items) ->
     let cp0 _ = Z0 in
     let top = List.map (tree_of cp0) items in
